@@ -52,10 +52,15 @@ def gi(r, d, pool):
                   "if", "cse", "neg", "sum", "prod", "min", "max", "cmp", "shared"])
     g = lambda: gi(r, d - 1, pool)  # noqa: E731
     if k == "sum":
-        return p.Sum(tuple(g() for _ in range(r.randint(2, 3))))
+        kids = [g() for _ in range(r.randint(2, 3))]
+        if r.random() < 0.3:    # a negated SUM as a term: a + -1*(b + c) is emitted with a minus sign
+            kids[r.randrange(1, len(kids))] = p.Product((-1, p.Sum((g(), r.choice(V)))))
+        return p.Sum(tuple(kids))
     if k == "prod":
         if r.random() < 0.3:    # a remainder / floor division as a factor (a * (b % c))
             rem = r.choice([p.Remainder, p.FloorDiv])(gnn(r, d - 1), p.Sum((gnn(r, d - 1), 2)))
+            if r.random() < 0.35:   # ... seen through a power that is emitted as its base
+                rem = p.Power(rem, r.choice([1, 1, 2]))
             fs = [gnn(r, d - 1), rem]
             r.shuffle(fs)
             return p.Product(tuple(fs))
@@ -113,7 +118,9 @@ def gnn(r, d):
 def gb(r, d, pool):
     if d <= 0 or r.random() < 0.2:
         return p.Comparison(r.choice(V), r.choice(CMPS), r.randint(0, 3))
-    k = r.choice(["cmp", "cmp", "not", "or", "and", "cmpbit", "cmpcmp"])
+    k = r.choice(["cmp", "cmp", "not", "or", "and", "cmpbit", "cmpcmp", "ifcond"])
+    if k == "ifcond":   # a conditional that is itself used as a truth value (condition, operand)
+        return p.If(gb(r, d - 1, pool), gb(r, d - 1, pool), gb(r, d - 1, pool))
     if k == "cmp":
         return p.Comparison(gi(r, d - 1, pool), r.choice(CMPS), gi(r, d - 1, pool))
     if k == "cmpbit":
@@ -139,13 +146,18 @@ def gf(r, d, pool):
                   "shared", "quotsq", "remlike"])
     g = lambda: gf(r, d - 1, pool)  # noqa: E731
     if k == "sum":
-        return p.Sum(tuple(g() for _ in range(r.randint(2, 3))))
+        kids = [g() for _ in range(r.randint(2, 3))]
+        if r.random() < 0.3:
+            kids[r.randrange(1, len(kids))] = p.Product((-1, p.Sum((g(), r.choice(V)))))
+        return p.Sum(tuple(kids))
     if k == "prod":
         return p.Product(tuple(g() for _ in range(r.randint(2, 3))))
     if k == "quot":
         return p.Quotient(g(), p.Sum((p.Product((g(), g())), 1.5)) if r.random() < 0.5
                           else p.Sum((p.Power(g(), 2), 1.0)))
     if k == "quotsq":
+        if r.random() < 0.4:    # a product-valued denominator behind exponent 1
+            return p.Quotient(g(), p.Power(p.Product((p.Sum((p.Power(r.choice(V), 2), 1.0)), 2.0)), 1))
         return p.Quotient(g(), p.Power(p.Sum((r.choice(V), 2.0)), 2))
     if k == "remlike":
         return p.Product((g(), p.Quotient(g(), p.Sum((p.Power(g(), 2), 1.0)))))
